@@ -229,6 +229,22 @@ func init() {
 		m0, cs := sb.CountPrefixes(mustI32(a[1]), mustI32(a[2]), mustI32(a[3]))
 		return fmt.Sprintf("%d;%s", m0, showI32s(cs))
 	})
+	// cpm keys s:e:m;s:e:m;...: several CountPrefixes queries on ONE SigBits object
+	reg("cpm", func(a []string) string {
+		sb := sigbits.New(parseStrList(a[0]))
+		outs := []string{}
+		for _, q := range strings.Split(a[1], ";") {
+			f := strings.Split(q, ":")
+			o := "PANIC"
+			func() {
+				defer func() { recover() }()
+				m0, cs := sb.CountPrefixes(mustI32(f[0]), mustI32(f[1]), mustI32(f[2]))
+				o = fmt.Sprintf("%d;%s", m0, showI32s(cs))
+			}()
+			outs = append(outs, o)
+		}
+		return strings.Join(outs, "|")
+	})
 	reg("shard", func(a []string) string {
 		l, b := sigbits.ShardByPrefix(parseStrList(a[0]), mustI32(a[1]))
 		return showI32s(l) + ";" + showI32s(b)
